@@ -752,7 +752,11 @@ func (fe *FnEnc) typeAssert(x *ssa.TypeAssert) Val {
 	at := x.AssertedType
 	var ok string
 	var val Val
-	if _, isIface := types.Unalias(at).Underlying().(*types.Interface); isIface {
+	if ifc, isIface := types.Unalias(at).Underlying().(*types.Interface); isIface && types.Implements(x.X.Type(), ifc) {
+		// statically known to implement the target interface: only nil-ness matters
+		ok = "(not (= " + v.Term + " 0))"
+		val = Val{T: at, Term: v.Term}
+	} else if isIface {
 		fn := fmt.Sprintf("implements_%d", s.typeID(at))
 		s.declFun(fn, []string{"Int"}, "Bool")
 		ok = "(and (not (= " + v.Term + " 0)) (" + fn + " (ityp " + v.Term + ")))"
